@@ -36,6 +36,9 @@ func runClosures(raw json.RawMessage) (res *Result, err error) {
 	var s stk.Stack
 	var c stk.Condition
 	var other any
+	var mafOn bool
+	var mafCalls, mafArgs int
+	var mafProblem string
 	if in.Cond {
 		c = stk.Cond("kw", stk.Eq, "val")
 		other = c // the comparand is the instance itself: only WHO decides is observed
@@ -144,10 +147,11 @@ func runClosures(raw json.RawMessage) (res *Result, err error) {
 					}
 				case 5:
 					if f >= 0 {
-						s.SetMarshaler(stk.Marshaler(func(...any) error { return oddErr(f) }))
+						s.SetMarshaler(stk.Marshaler(func(a ...any) error { mafCalls++; mafArgs = len(a); return oddErr(f) }))
 					} else {
 						s.SetMarshaler()
 					}
+					mafOn = f >= 0
 				case 6:
 					var fn stk.Evaluator
 					if f >= 0 {
@@ -214,7 +218,17 @@ func runClosures(raw json.RawMessage) (res *Result, err error) {
 				rec = fmt.Sprintf("%v %v", u, e)
 			case "marshal":
 				callT = append(callT, "PMarshal")
-				e := s.Marshal("AND", "x")
+				// whatever the arguments are (as long as there is one), an installed
+				// closure is asked, once, with those arguments
+				args := []any{"AND", "x"}
+				if mafOn {
+					args = [][]any{{"AND", "x"}, {[]any{}}, {[]any{[]any{}}}, {nil}, {[]any(nil)}, {[]any{[]any{[]any{}}}}, {stk.Stack{}}, {7}}[cl.F%8]
+				}
+				before := mafCalls
+				e := s.Marshal(args...)
+				if mafOn && (mafCalls != before+1 || mafArgs != len(args)) && mafProblem == "" {
+					mafProblem = fmt.Sprintf("Marshal(%#v) with a Marshaler installed: the closure was asked %d time(s), last with %d argument(s)", args, mafCalls-before, mafArgs)
+				}
 				ob, rec = "(OErr "+coqBool(e != nil)+")", e != nil
 			case "evaluate":
 				callT = append(callT, "PEvaluate")
@@ -262,7 +276,7 @@ func runClosures(raw json.RawMessage) (res *Result, err error) {
 	}
 	// read-only is about what a call may CHANGE, never about who answers: with
 	// the flag set every installed closure must still be the one that decides
-	invariant := ""
+	invariant := mafProblem
 	if !panicked {
 		func() {
 			defer func() {
@@ -344,7 +358,9 @@ func genClosures(ctx *Ctx, emit func(any, string)) {
 				calls = append(calls, ClCall{Op: "set", Slot: sl, F: f})
 				calls = append(calls, observers(cond)...)
 				if !cond && sl == 5 {
-					calls = append(calls, ClCall{Op: "marshal"})
+					for form := 0; form < 8; form++ {
+						calls = append(calls, ClCall{Op: "marshal", F: form})
+					}
 				}
 				calls = append(calls, ClCall{Op: "set", Slot: sl, F: -1})
 				calls = append(calls, observers(cond)...)
@@ -376,7 +392,7 @@ func genClosures(ctx *Ctx, emit func(any, string)) {
 			} else {
 				obs := observers(cond)
 				if !cond && r.Pct(15) {
-					in.Calls = append(in.Calls, ClCall{Op: "marshal"})
+					in.Calls = append(in.Calls, ClCall{Op: "marshal", F: r.Intn(8)})
 				} else {
 					in.Calls = append(in.Calls, obs[r.Intn(len(obs))])
 				}
